@@ -1788,3 +1788,183 @@ class FAL(FA):
             li = self._live_in.get(x, frozenset())
             res.append((x, tuple(kv for kv in e if kv[0] in li or (kv[1][0] == "discof" and kv[1][1] in li))))
         return res
+
+
+
+# ------------------------------------------------------------------------------------------------
+# appended: waypoint queries over feasible paths
+
+def fa_reach_states(fa, states, avoid=frozenset(), cut_edges=frozenset()):
+    """All (block, env) states of FA `fa` reachable from the given states (the given states included), not entering
+    a block of `avoid` and not using an edge of `cut_edges`; None when the state cap is hit (the caller then falls
+    back to block reachability, which over-approximates)."""
+    seen = set()
+    todo = [st for st in states if st[0] not in avoid]
+    while todo:
+        st = todo.pop()
+        if st in seen:
+            continue
+        seen.add(st)
+        if len(seen) > fa.STATE_CAP:
+            return None
+        for (x, e) in fa.step(st[0], st[1]):
+            if (st[0], x) in cut_edges or x in avoid:
+                continue
+            todo.append((x, e))
+    return seen
+
+
+def fa_path_via(fa, waypoints, goal, avoid=frozenset(), cut_edges=frozenset()):
+    """A feasible witness path entry -> w1 -> w2 -> .. -> goal that visits one block of each waypoint set in order
+    (what is known about the tracked enum / bool locals is carried from entry through every waypoint, so a waypoint
+    reached only with `x = A` cannot be left through the `x = B` arm of a later re-split), or None.
+    waypoints: list of block collections; goal: block collection."""
+    states = {(0, ())}
+    for w in waypoints:
+        w = set(w)
+        r = fa_reach_states(fa, states, avoid, cut_edges)
+        if r is None:
+            # cap: plain block reachability through the waypoints (superset of the feasible paths)
+            ba = fa.ba
+            cur = [0]
+            for w2 in list(waypoints):
+                cur = [x for x in ba.reach_incl(cur, avoid=frozenset(avoid), cut_edges=frozenset(cut_edges)) if x in set(w2)]
+                if not cur:
+                    return None
+            return ba.path(cur, goal, avoid=frozenset(avoid), cut_edges=frozenset(cut_edges), incl=True)
+        states = {st for st in r if st[0] in w}
+        if not states:
+            return None
+        # leave the waypoint: the states after executing it
+        nxt = set()
+        for st in states:
+            for (x, e) in fa.step(st[0], st[1]):
+                if (st[0], x) in cut_edges or x in avoid:
+                    continue
+                nxt.add((x, e))
+        if not nxt:
+            return None
+        states = nxt
+    p = fa.path([], goal, avoid=frozenset(avoid), cut_edges=frozenset(cut_edges), states=tuple(sorted(states, key=repr)))
+    return p
+
+
+# ------------------------------------------------------------------------------------------------
+# appended: feasible paths that also decide `a == b` on field-less enums (derived PartialEq)
+
+class FAX(FA):
+    """FA that additionally follows what `#[derive(PartialEq)]` on a field-less enum compiles to, so that a two-variant
+    enum used where a bool used to be (`if mode == Mode::A {..}` with `mode` a known variant, typically the argument of
+    a helper that canon.py spliced into a call site that passes a literal variant) prunes the arm not taken:
+
+        ("ref", local)      a shared borrow of a whole tracked local (`&x`, moved / reborrowed `&*r`)
+        discriminant_value(r)  with r -> x and x a known variant      => ("disc", variant)
+        Eq / Ne of two ("disc", ..) values                            => ("b", bool)
+        copy of `*r` with r -> x                                       => the value of x
+
+    Same guarantees as FA: only locals that are never borrowed mutably are tracked, unknown values take every arm."""
+
+    _cache = {}
+    _DISCR = re.compile(r"core::intrinsics::discriminant_value")
+
+    def _tracked(self):
+        b = self.b
+        excluded = set()
+        rel = set()
+        for blk in b.blocks:
+            for s in blk["stmts"]:
+                if s["s"] != "assign":
+                    continue
+                rv = s["rv"]
+                if (rv["k"] == "ref" and rv.get("mut")) or rv["k"] == "rawptr":
+                    excluded.add(rv["place"]["l"])
+            t = blk["term"]
+            if t["t"] == "switch":
+                p = op_place(t["discr"])
+                if p is not None and not p["p"]:
+                    rel.add(p["l"])
+        changed = True
+        while changed:
+            changed = False
+            for blk in b.blocks:
+                for s in blk["stmts"]:
+                    if s["s"] != "assign" or s["place"]["p"] or s["place"]["l"] not in rel:
+                        continue
+                    rv = s["rv"]
+                    src = []
+                    if rv["k"] == "use":
+                        src = [op_place(rv["op"])]
+                    elif rv["k"] == "unop" and rv["op"] == "Not":
+                        src = [op_place(rv["a"])]
+                    elif rv["k"] == "discr":
+                        src = [rv["place"]] if not rv["place"]["p"] else []
+                    elif rv["k"] == "agg" and rv.get("agg") == "adt":
+                        src = [op_place(o) for o in rv["ops"]]
+                    elif rv["k"] == "binop" and rv["op"] in ("Eq", "Ne"):
+                        src = [op_place(rv["a"]), op_place(rv["b"])]
+                    elif rv["k"] == "ref" and not rv.get("mut"):
+                        src = [rv["place"]]
+                    for p in src:
+                        if p is not None and p["l"] not in rel and all(e == "deref" or e.startswith("as:") or e.startswith("f:") for e in p["p"]):
+                            rel.add(p["l"])
+                            changed = True
+                t = blk["term"]
+                if t["t"] == "call" and not t["dest"]["p"] and t["dest"]["l"] in rel and (self._is_try_branch(t) or call_matches(t, self._DISCR)):
+                    p = op_place(t["args"][0]) if t["args"] else None
+                    if p is not None and not p["p"] and p["l"] not in rel:
+                        rel.add(p["l"])
+                        changed = True
+        return rel - excluded
+
+    def _assign(self, env, s):
+        dst = s["place"]
+        l = dst["l"]
+        if l in self.tracked and not dst["p"]:
+            rv = s["rv"]
+            v = None
+            handled = False
+            if rv["k"] == "ref" and not rv.get("mut"):
+                handled = True
+                p = rv["place"]
+                if not p["p"] and p["l"] in self.tracked:
+                    v = ("ref", p["l"])
+                elif p["p"] == ["deref"]:
+                    pv = env.get(p["l"])
+                    v = pv if pv is not None and pv[0] == "ref" else None
+            elif rv["k"] == "use":
+                p = op_place(rv["op"])
+                if p is not None and p["p"] == ["deref"]:
+                    handled = True
+                    pv = env.get(p["l"])
+                    if pv is not None and pv[0] == "ref":
+                        v = env.get(pv[1])
+                        if v is not None and v[0] not in ("v", "b"):
+                            v = None
+            elif rv["k"] == "binop" and rv["op"] in ("Eq", "Ne"):
+                handled = True
+                a, c = self._op_val(rv["a"], env), self._op_val(rv["b"], env)
+                if a is not None and c is not None and a[0] == "disc" and c[0] == "disc":
+                    v = ("b", (a[1] == c[1]) == (rv["op"] == "Eq"))
+            if handled:
+                self._kill(env, l)
+                if v is not None:
+                    env[l] = v
+                return
+        FA._assign(self, env, s)
+
+    def _step(self, bb, envt):
+        t = self.b.blocks[bb]["term"]
+        if t["t"] == "call" and call_matches(t, self._DISCR) and not t["dest"]["p"] and t["dest"]["l"] in self.tracked and t["args"]:
+            env = self.env_before_term(bb, envt)
+            a = self._op_val(t["args"][0], env)
+            v = None
+            if a is not None and a[0] == "ref":
+                x = env.get(a[1])
+                if x is not None and x[0] == "v":
+                    v = ("disc", x[2])
+            self._kill(env, t["dest"]["l"])
+            if v is not None:
+                env[t["dest"]["l"]] = v
+            fe = self._freeze(env)
+            return [(x, fe) for x in self.b.succ(bb)]
+        return FA._step(self, bb, envt)
